@@ -216,3 +216,49 @@ package transaction
 // Batching keeps track of the batch that holds the primary key: primaryIdx is only ever set to "none yet", to the index
 // the batch under construction is about to get (the current number of batches), or to the front after the swap.
 //@ field batched.primaryIdx transition C04: new == -1 || new == 0 || new == len(self.batches)
+
+// ---- C03: what Commit may answer -----------------------------------------------------------------------------------
+// errIsUndetermined(e): e is the "result undetermined" error (possibly wrapped with a stack).
+//@ spec func errIsUndetermined(e error) bool { return errors.Is(e, tikverr.ErrResultUndetermined) }
+
+// commitTxn: nil is answered only if the primary commit was acknowledged (committed is set); when the commit of the
+// primary may have taken effect but its outcome was not learnt (an RPC error is recorded) the answer is "undetermined",
+// never a definite failure; a definite failure is answered only while nothing says committed.
+//@ func (*twoPhaseCommitter) commitTxn
+//@   prop C03
+//@   opaque-callee commitMutations DiscardValues GetMemDB GetMemBuffer NewBackofferWithVars GetTotalSleep GetTypes
+//@   ensures done: result == nil ==> c.mu.committed || err == nil
+//@   ensures undetermined: result != nil && c.mu.undeterminedErr != nil ==> errIsUndetermined(result)
+//@   ensures failed: result != nil ==> !c.mu.committed
+
+// The commit of one batch: the request names the transaction's start timestamp, the batch's keys and the commit
+// timestamp currently chosen, and goes to the batch's region. The undetermined error is recorded only for the primary batch of a transaction that is not async commit, with the RPC
+// error that was seen; it is cleared only after a
+// response (not a region error) to the primary's commit was received; "undetermined result" reported by the store for the
+// primary is passed up as such; success (nil) marks the transaction committed.
+//@ func (actionCommit) handleSingleBatch
+//@   prop C03
+//@   may-panic
+//@   opaque-callee GetKeys primary GetRequestSource NewRegionRequestSender MayBackoffForRegionError relocate doActionOnMutations GetTimestampForCommit ExtractKeyErr MergeCommitReqDetails getDetail GetStoreAddr
+//@   at call(SendReq) assert request: arg_req == req && arg_regionID == batch.region && req.Req.(*kvrpcpb.CommitRequest).StartVersion == c.startTS && req.Req.(*kvrpcpb.CommitRequest).CommitVersion == c.commitTS
+//@   at call(setUndeterminedErr#1) assert record: batch.isPrimary && !c.isAsyncCommit() && arg_err != nil
+//@   at call(setUndeterminedErr#2) assert clear: arg_err == nil && batch.isPrimary && resp.Resp != nil && regionErr == nil
+//@   loop 1 invariant req: req != nil && req.Req.(*kvrpcpb.CommitRequest).StartVersion == c.startTS && req.Req.(*kvrpcpb.CommitRequest).CommitVersion == c.commitTS
+
+//@ func (*twoPhaseCommitter) getUndeterminedErr
+//@   prop C03
+//@   ensures result == c.mu.undeterminedErr && c.mu.undeterminedErr == old(c.mu.undeterminedErr) && c.mu.committed == old(c.mu.committed)
+
+//@ func (*twoPhaseCommitter) setUndeterminedErr
+//@   prop C03
+//@   ensures c.mu.undeterminedErr == err && c.mu.committed == old(c.mu.committed)
+
+// The clean-up that runs when execute ends: locks are rolled back only when the commit definitely did not happen - the
+// attempt failed and no undetermined error is recorded (one-phase and async commit), or neither "committed" nor an
+// undetermined error is recorded (two-phase commit).
+//@ func (*twoPhaseCommitter) execute$1
+//@   prop C03
+//@   opaque-callee cleanup shouldWriteBinlog Commit Skip Inc
+//@   at call(cleanup#3) assert onepc: err != nil && c.mu.undeterminedErr == nil
+//@   at call(cleanup#2) assert async: err != nil && c.mu.undeterminedErr == nil
+//@   at call(cleanup#1) assert twopc: !c.mu.committed && c.mu.undeterminedErr == nil
